@@ -87,10 +87,10 @@ PROPS["C03"] = dict(
 PROPS["C03"]["runs"].append(_RBC_S3_ONE)
 
 
-def _rbc_sys(n, s, r, shards=1, depth=4, tiers=("quick", "thorough")):
-    return dict(name="system run N=%d senders=%d rounds=%d" % (n, s, r), dir="rbc", files=["rbc_sys.go.txt"], entry="verifH_C04_sys", params={"hN": n, "hS": s, "hR": r},
+def _rbc_sys(n, s, r, shards=1, depth=4, tiers=("quick", "thorough"), same=0):
+    return dict(name="system run N=%d senders=%d rounds=%d%s" % (n, s, r, " identical payloads" if same else ""), dir="rbc", files=["rbc_sys.go.txt"], entry="verifH_C04_sys", params={"hN": n, "hS": s, "hR": r, "hSame": same},
                 shards=shards, shard_depth=depth, count=["assert:C04-", "panic:", "deadlock:"], expect_covers=["all-delivered"], only_tiers=list(tiers),
-                bounds={"N": n, "broadcasting parties": s, "rounds": r, "point-to-point messages": 1, "delivery orders": "all (symbolic choice of the next in-flight message until none is left)"})
+                bounds={"N": n, "broadcasting parties": s, "rounds": r, "point-to-point messages": 1, "payloads": "identical for all broadcasts" if same else "distinct", "delivery orders": "all (symbolic choice of the next in-flight message until none is left)"})
 
 
 PROPS["C04"] = dict(
@@ -105,6 +105,8 @@ PROPS["C04"] = dict(
              bounds={"N": 3, "receiver": 1, "messages due": 6, "pre-state": "canonical state of an arbitrary received subset (6 symbolic flags)", "event": "any message not yet received"}),
         _rbc_sys(2, 2, 2), _rbc_sys(3, 1, 1), _rbc_sys(3, 2, 1, shards=16, depth=3),
         _rbc_sys(3, 1, 2, shards=16, depth=3), _rbc_sys(4, 1, 1, shards=16, depth=3, tiers=("thorough",)),
+        # the digest binds the payload only: several senders / rounds broadcasting byte-identical payloads
+        _rbc_sys(2, 2, 2, same=1), _rbc_sys(3, 2, 1, shards=16, depth=3, same=1), _rbc_sys(3, 1, 2, shards=16, depth=3, same=1),
     ],
 )
 
@@ -383,8 +385,8 @@ PROPS["C11"] = dict(
     assumptions=_ALG_ENV + ["context expiry is forced when nothing else can run (and not earlier)", "canonical goroutine schedule"],
     outside=["more than one faulty peer", "real timers", "expiry racing with message handling", "the binance backends (their KeyGen panics on pre-parameter timeout by design of the adapter: read only, not encoded)"],
     runs=[
-        _bls("verifH_C11_silent", ["bls_c11.go.txt"], name="TBLS.KeyGen with a peer that goes silent after its k-th message", count=["assert:C11-", "panic:", "deadlock:"], covers=["end", "returned-error", "returned-ok"],
-             bounds={"n": 3, "t": 2, "silent peer": "any of 3", "k": "0..6 (all)"}),
+        _bls("verifH_C11_silent", ["bls_c11.go.txt"], params={"hCtxEnd": 2}, name="TBLS.KeyGen with a peer that goes silent after its k-th message", count=["assert:C11-", "panic:", "deadlock:"], covers=["end", "returned-error", "returned-ok"],
+             bounds={"n": 3, "t": 2, "silent peer": "any of 3", "k": "0..6 (all)", "context ends by": "cancellation or deadline (symbolic)"}),
         dict(name="Scheme.Sign failure paths return an error", dir="threshold", files=["thr_c12.go.txt"], entry="verifH_C12_sign", args=_THR_CONC + ["-preempt", "0"], count=["assert:C11-", "panic:", "deadlock:"], expect_covers=["end"],
              shards=8, shard_depth=4, bounds={"outcomes": "first barrier fails, second barrier fails, share data unusable, signer fails"}),
     ],
@@ -554,3 +556,54 @@ PROPS["C11"]["runs"].append(
     dict(name="KeyGen / Sign with a dispatcher stuck inside the session's handler when the deadline passes", dir="threshold", files=["thr_c12.go.txt"], entry="verifH_C11_stuck_dispatch",
          args=_THR_CONC + ["-preempt", "0", "-det"], count=["assert:C11-", "panic:", "deadlock:"], expect_covers=["returned"],
          bounds={"call": "KeyGen or Sign (symbolic)", "scenario": "peer's synchroniser message dispatched while the session waits at its first barrier; the handler never returns; context expires at quiescence"}))
+
+# ---- members only: traffic of a configured member that is not a participant of the session (and of a node outside the membership)
+# must not reach the session's reliable-broadcast instance (C12 clause; C03 "session participant"; in C02 the vouchers of
+# rbc.Receiver are only counted soundly among participants, so the filter in front of it is part of that claim)
+def _members(entry, what, extra):
+    return dict(name="members only: non-participant traffic during " + what, dir="threshold", files=["thr_c06.go.txt"], entry=entry,
+                args=["-maporder", "-realhex"] + extra, count=["assert:C12-", "assert:C03-", "assert:C06-", "panic:", "deadlock:"], expect_covers=["end"], replay_repeat=40,
+                bounds={"configured nodes": 3, "participants": "u0 (self), u1", "sources": "u2 (member, not participant; may be a replica of u1's party), x (any id outside the session), u1 (control)",
+                        "node/party ids": "all 16-bit values", "message": "5 symbolic bytes (payload and acknowledgement encodings)", "entry": "public Scheme.HandleMessage"})
+
+
+_MEMBERS_RUNS = [
+    _members("verifH_C12_members_sign", "a signing session (real prepareSigning)", []),
+    _members("verifH_C12_members_keygen", "a key generation (real KeyGen/runDKG)", ["-redirect", "context.WithCancel=verifWithCancel", "-preempt", "0", "-det"]),
+]
+for _p in ("C12", "C03", "C02"):
+    PROPS[_p]["runs"] += [dict(r) for r in _MEMBERS_RUNS]
+PROPS["C05"]["runs"].append(dict(_MEMBERS_RUNS[1]))  # only participants may vouch in a DKG's reliable broadcast (a member outside the session could otherwise vouch for an equivocation)
+
+# C01 composes over C06: the built-in backends derive each party's evaluation point from its position in the list handed to Init,
+# so key agreement needs every node to initialise its backend with the same (sorted) list whatever order the synchroniser reports
+PROPS["C01"]["runs"] += [
+    dict(dict(r), name="backend initialised with the sorted party list: " + r["entry"], count=["assert:C06-init", "assert:C06-party", "panic:"])
+    for r in PROPS["C06"]["runs"] if r["entry"] in ("verifH_C06_dkg", "verifH_C06_sign", "verifH_C06_dup")
+]
+
+# C13 (end to end for the built-in BLS backend): a complete DKG, the public parameters through Verifier.Init, the stored share data
+# through SetShareData, signing and verification for every subset, with ARBITRARY 16-bit party identifiers
+_C13_BLS = _bls("verifH_C01_keygen", ["bls_c01.go.txt"], params={"kN": 3, "kT": 2, "kOrder": 0, "kIds": 1}, name="BLS session with arbitrary 16-bit party identifiers (DKG, public parameters, stored shares, sign, aggregate, verify)",
+                count=["assert:C01-", "assert:C13-", "panic:", "deadlock:"], covers=["end"], bounds={"n": 3, "t": 2, "party identifiers": "all ascending triples of 16-bit values", "delivery": "send order"})
+PROPS["C13"]["runs"].append(_C13_BLS)
+PROPS["C01"]["runs"].append(dict(_C13_BLS))
+
+# PS twin of the Byzantine-participant DKG harness (C05), also the "DKG handlers then the KeyGen steps that consume what they stored" scenario of C10
+def _ps_byz(count):
+    return _ps("verifH_C05_ps_byz", ["ps_c05.go.txt"], params={"qN": 3, "qT": 2, "qL": 1}, name="TPS.KeyGen n=3 t=2, party 3 Byzantine", count=count, covers=["all-aborted", "all-completed"],
+               shards=8, shard_depth=4,
+               bounds={"n": 3, "t": 2, "message length": 1, "Byzantine messages": "share per victim: arbitrary well-formed / wrong number of components / undecodable / withheld / duplicated; commitment matching or arbitrary 32 bytes or withheld; "
+                       "revealed key arbitrary well-formed / wrong number of components / undecodable / withheld / duplicated; reveal before or after commitment", "context": "ends when nothing else can happen"})
+
+
+PROPS["C05"]["runs"].append(_ps_byz(["assert:C05-", "panic:", "deadlock:"]))
+PROPS["C10"]["runs"].append(_ps_byz(["panic:", "deadlock:"]))
+
+# C18, PS twin of the detection check: every component (X, Y_k) of every party key is cross-checked over every t-subset
+PROPS["C18"]["runs"] += [
+    _ps("verifH_C18_ps_detect", ["ps_c18.go.txt"], params={"dN": n, "dT": t, "dL": l}, name="PS detection n=%d t=%d L=%d" % (n, t, l), count=["assert:C18-", "panic:"], covers=["consistent", "perturbed"],
+        bounds={"n": n, "t": t, "message length": l, "perturbed": "any one party (symbolic), any one key component X / Y_k (symbolic), by any non-zero amount"},
+        only=(["quick", "thorough"] if n <= 4 and l == 1 else ["thorough"]))
+    for (n, t, l) in [(3, 2, 1), (4, 2, 1), (4, 3, 1), (3, 2, 2), (5, 2, 1), (5, 3, 1), (5, 4, 1), (4, 3, 2)]
+]
